@@ -1,6 +1,43 @@
 import TantivyModel.Driver.Proto
+import TantivyModel.Model.GC
+/-!
+Line protocol of the C10 model.
+
+  `gc <dir> <managed> <live> <fails>`   one complete collection (`GC.fullGC`) from the given state;
+        lists are comma separated path numbers (`-` = empty), `<live>` = `/`-separated file lists
+        of the live metas (path 0 = meta.json is always living);
+        → `<dir'>|<managed'>|<deleted>|<failed>` (each sorted)
+  `steps <dir> <managed> <live> <fails>` the same through the small-step events (`fullGCSteps`),
+        → same format, plus `|safe` / `|unsafe` (discipline of the generated events)
+-/
 namespace TantivyModel.Driver.C10
-/-- stub: the model for C10 is not built yet -/
+open TantivyModel TantivyModel.Proto TantivyModel.GC
+
+def liveLists (s : String) : Option (List (List Nat)) :=
+  if s == "-" then some [] else (s.splitOn "/").mapM natList
+
+def sortNat (l : List Nat) : List Nat := (l.toArray.qsort (· < ·)).toList
+
+def showSt (s : St) : String :=
+  showNatList (sortNat s.dir) ++ "|" ++ showNatList (sortNat s.managed) ++ "|" ++
+    showNatList (sortNat s.deleted) ++ "|" ++ showNatList (sortNat s.failed)
+
+def mk (dir managed : List Nat) (live : List (List Nat)) : St :=
+  { dir := dir, managed := managed, live := live, pending := none, deleted := [], failed := [] }
+
 def handle : List String → String
+  | ["gc", d, m, l, f] =>
+    match natList d, natList m, liveLists l, natList f with
+    | some d, some m, some l, some f => showSt (fullGC (mk d m l) f)
+    | _, _, _, _ => "bad-op"
+  | ["steps", d, m, l, f] =>
+    match natList d, natList m, liveLists l, natList f with
+    | some d, some m, some l, some f =>
+      let s := mk d m l
+      let evs := fullGCSteps s f
+      let r := s.run evs
+      showSt r ++ "|" ++ (if Disc s evs then "safe" else "unsafe")
+    | _, _, _, _ => "bad-op"
   | _ => "bad-op"
+
 end TantivyModel.Driver.C10
